@@ -427,6 +427,7 @@ def absq (x : Rat) : Rat := if x < 0 then -x else x
 /-- `2^-k` -/
 def dyadicInv (k : Nat) : Rat := 1 / ((2 ^ k : Nat) : Rat)
 def maxq (a b : Rat) : Rat := if a ≤ b then b else a
+def minq (a b : Rat) : Rat := if a ≤ b then a else b
 def dotq (a b : List Rat) : Rat := (List.zipWith (· * ·) a b).foldl (· + ·) 0
 def normInfV (v : List Rat) : Rat := v.foldl (fun m x => maxq m (absq x)) 0
 /-- `‖M‖∞` = largest absolute row sum -/
